@@ -45,7 +45,10 @@ class Mono(System):
             if cfg["kind"] == "drift" and first[i] is not None:
                 states.append("done")
                 continue
-            rng.seed_step(ctx.seed, self.name, cfg["id"], pos)
+            if cfg.get("salt") is None:
+                rng.seed_step(ctx.seed, self.name, cfg["id"], pos)
+            else:  # the same ladder under a further seed schedule
+                rng.seed_step(ctx.seed, self.name, cfg["id"], "salt", cfg["salt"], pos)
             try:
                 self.d.feed(det, ev, self._params(cfg, vals[i]))
             except ValueError as e:
@@ -145,6 +148,16 @@ LADDERS = [
     ("KdqTreeBatch", "drift", {"bootstrap_samples": 10, "count_ubound": 2, "_container": "DataFrame"}, "alpha", [0.7, 0.2, 0.04], 3, 4),
     ("NNDVI", "drift", {"k_nn": 2, "sampling_times": 8, "_container": "DataFrame"}, "alpha", [0.6, 0.3, 0.01], 3, 4),
     ("HDDDM", "drift", {"detect_batch": 1, "statistic": "tstat", "subsets": 3, "_container": "DataFrame"}, "significance", [0.5, 0.2, 0.05], 4, 5),
+    # fine ladders for the detectors whose threshold is a quantile of simulated / permuted / bootstrapped statistics:
+    # neighbouring levels on both sides of 1/(number of simulated statistics), so that the thresholds of two members lie
+    # close together and anything that makes the simulated statistics themselves depend on the level (another number of
+    # draws, another order, a level-dependent seed) shows as an inversion; each is run under three seed schedules ("salts")
+    ("NNDVI", "drift", {"k_nn": 2, "sampling_times": 8, "_salts": 48}, "alpha", [0.3, 0.14, 0.125, 0.12, 0.11, 0.1, 0.05], 4, 5),
+    ("KdqTreeBatch", "drift", {"bootstrap_samples": 10, "count_ubound": 1, "_salts": 2}, "alpha", [0.3, 0.12, 0.1, 0.09, 0.05], 3, 4),
+    ("KdqTreeStreaming", "drift", {"window_size": 2, "persistence": 0.5, "bootstrap_samples": 8, "count_ubound": 1, "_salts": 2}, "alpha", [0.3, 0.14, 0.125, 0.12, 0.05], 8, 9),
+    ("LinearFourRates", "drift", {"time_decay_factor": 0.6, "warning_level": 0.3, "burn_in": 1, "num_mc": 20, "_salts": 2}, "detect_level", [0.2, 0.06, 0.05, 0.04, 0.02], 5, 6),
+    ("HDDDM", "drift", {"detect_batch": 2, "statistic": "tstat", "subsets": 3, "_salts": 2}, "significance", [0.3, 0.06, 0.05, 0.04, 0.01], 4, 5),
+    ("CDBD", "drift", {"detect_batch": 1, "statistic": "stdev", "subsets": 3, "_salts": 2}, "significance", [1, 1.9, 2, 2.1, 3], 4, 5),
     # warning clause: ladder tightest..loosest warning threshold
     # (ladders deliberately cross the drift value: a warning threshold stricter than the drift threshold is legal)
     ("DDM", "warning", {"n_threshold": 2, "drift_scale": 2}, "warning_scale", [3, 2.5, 1.5, 1], 13, 16),
@@ -162,19 +175,20 @@ def tasks(tier, seed):
         d = DRIVERS[name]
         depth = dq if tier == "quick" else dt
         split = 2 if len(d.alphabet(base)) <= 3 else 1
-        cfg = {"id": li, "base": base, "param": param, "values": vals, "kind": kind}
-        for pre in itertools.product(d.alphabet(base), repeat=split):
-            out.append(
-                {
-                    "system": name,
-                    "cfg": cfg,
-                    "prefix": list(pre),
-                    "depth": depth - split,
-                    "label": "%s|%d:%s|%s" % (name, li, param, ",".join(map(str, pre))),
-                    "cost": COST.get(name, 1),
-                    "validate_every": 211,
-                }
-            )
+        for salt in ([None] if "_salts" not in base else list(range(base["_salts"]))):
+            cfg = {"id": li, "base": base, "param": param, "values": vals, "kind": kind, "salt": salt}
+            for pre in itertools.product(d.alphabet(base), repeat=split):
+                out.append(
+                    {
+                        "system": name,
+                        "cfg": cfg,
+                        "prefix": list(pre),
+                        "depth": depth - split,
+                        "label": "%s|%d:%s%s|%s" % (name, li, param, "" if salt is None else "|salt%d" % salt, ",".join(map(str, pre))),
+                        "cost": COST.get(name, 1),
+                        "validate_every": 211,
+                    }
+                )
     return out
 
 
